@@ -17,6 +17,14 @@ def main(tier, seed):
     cases = gen_cases(run, "TableSpecGen.tla", dict(med, SimDepth="50", PreferOk="TRUE"), "C07-Sim",
                       simulate=6 if not thorough else 60, depth=51, seed=seed)
     replay(run, "table-replay", cases, "table-sim")
+    # the table's index is a CaoHashMap of capacity 8: one case per slot layout of the slot-level model (see C12), replayed on a
+    # real table with integer keys whose real hashes have the home slots the model chose
+    oa = dict(KeySeq="<-KS3" if not thorough else "<-KS4", Kind='"hm"', Cap0s="{8}", Mod="8", ResSet="{0, 1, 2, 3, 4, 5, 6, 7}", MaxV="0")
+    cases = gen_cases(run, "OpenAddrGen.tla", oa, "C07-OpenAddrFan", workers=8, timeout=3600)
+    for c in cases:
+        c["kind"] = "tab"
+    run.notes["slot_layouts_replayed"] = len(cases)
+    replay(run, "maps-replay", cases, "table-slots")
     # 3. impl -> spec: long random histories (20 keys incl. equal-by-content strings, reals, nil, negative ints)
     d = workdir("C07-traces")
     files = []
